@@ -13,7 +13,9 @@ import (
 	"sync"
 	"time"
 
+	pkgerr "github.com/pkg/errors"
 	"github.com/rs/zerolog"
+	"github.com/rs/zerolog/pkgerrors"
 )
 
 // ---------------------------------------------------------------- values
@@ -76,6 +78,8 @@ func mkErr(v Val) error {
 		return (*ptrErr)(nil)
 	case "objerr":
 		return &objErr{string(v.S)}
+	case "stacked":
+		return pkgerr.New(string(v.S)) // github.com/pkg/errors: carries a stack trace for pkgerrors.MarshalStack
 	}
 	return errors.New(string(v.S))
 }
@@ -887,6 +891,8 @@ func (s Settings) Apply() (restore func()) {
 		zerolog.ErrorStackMarshaler = func(err error) interface{} { return errors.New("stack-as-error") }
 	case "obj":
 		zerolog.ErrorStackMarshaler = func(err error) interface{} { return &errObj{"stack-obj"} }
+	case "pkgerrors":
+		zerolog.ErrorStackMarshaler = pkgerrors.MarshalStack // the marshaler the repository ships
 	case "nilerr":
 		// the usual errors.As idiom on an error that wraps nothing: a typed-nil error in an interface
 		zerolog.ErrorStackMarshaler = func(err error) interface{} { var pe *ptrErr; return pe }
